@@ -792,6 +792,11 @@ func (f *STFS) Rename(oldname, newname string) error {
 		}
 	}
 
+	// Renaming an existing entry onto itself leaves it alone
+	if rootedOldname == rootedNewname {
+		return nil
+	}
+
 	if parent, err := inventory.Stat(
 		f.metadata,
 
